@@ -33,8 +33,14 @@ T == Batch[tid]
 Ev == T.ev[l]
 Exact == T.kind = "exact"
 
+\* the operators as ASSEMBLED by MeshOperators.build_operators() (mu_laplacian, mu_boundary_laplacian, mu_gradient,
+\* divergence), once per documented value of the sparse_solver option
+AsmPaths == {"asm:superlu", "asm:umfpack", "asm:pardiso", "asm:cupy"}
+ScalarOps == {"div", "grad", "lap", "neumann"}
 OpNames == {"div", "grad", "lap", "neumann", "covgrad", "covlap", "covgrad_r", "covlap_r", "covgrad2", "covlap2"}
-Slot(op, path) == IF path = "refresh" THEN op \o "_r" ELSE op     \* built from scratch / refreshed in place
+              \cup {o \o "@" \o p : o \in ScalarOps, p \in AsmPaths}
+\* where a recorded matrix is kept: built from scratch / refreshed in place / assembled for a solver option
+Slot(op, path) == IF path = "refresh" THEN op \o "_r" ELSE IF path \in AsmPaths THEN op \o "@" \o path ELSE op
 None == <<>>
 
 \* the mesh of the trace: an instance of the FVOps universe, or explicit
@@ -65,7 +71,9 @@ Require(name, ok) == IF Strict THEN ok /\ UNCHANGED bad ELSE bad' = (IF ok THEN 
 \* a matrix produced for the un-gauged configuration
 TOp == /\ IsEv("op") /\ Exact /\ chi = None
        /\ Ev.op \in {"div", "grad", "lap", "neumann", "covgrad", "covlap"}
-       /\ \A M \in {TM} : Require("CodeMatchesSpec:" \o Ev.op, Ev.m = SpecMat(M, Ev.op, Ev.q))
+       /\ (Ev.path \in AsmPaths => Ev.op \in ScalarOps /\ Ev.src = "code")
+       /\ \A M \in {TM} : Require("CodeMatchesSpec:" \o Ev.op \o (IF Ev.path \in AsmPaths THEN "@" \o Ev.path ELSE ""),
+                                  Ev.m = SpecMat(M, Ev.op, Ev.q))
        /\ IF Ev.src = "code"
           THEN /\ cm' = [cm EXCEPT ![Slot(Ev.op, Ev.path)] = Storable(Ev.m)]
                /\ IF Ev.op \in {"covgrad", "covlap"} THEN (cq = None \/ cq = Ev.q) /\ cq' = Ev.q ELSE UNCHANGED cq
@@ -108,7 +116,8 @@ ScalarFacts == {"div_code_eq_formula", "grad_code_eq_formula", "lap_code_eq_form
                 "lap_eq_div_grad", "weighted_div_sums_to_zero", "boundary_flux_integrates", "weighted_lap_symmetric",
                 "weighted_lap_max_eigenvalue", "lap_annihilates_constants", "grad_exact_on_linear",
                 "assembled_divergence_eq_formula", "assembled_mu_gradient_eq_formula",
-                "assembled_mu_laplacian_eq_formula", "assembled_boundary_eq_formula"}
+                "assembled_mu_laplacian_eq_formula", "assembled_boundary_eq_formula",
+                "assembled_lap_eq_div_grad", "assembled_weighted_lap_symmetric", "assembled_lap_annihilates_constants"}
 CovFacts == {"covgrad_code_eq_formula", "covlap_code_eq_formula", "covgrad_refresh_eq_formula", "covlap_refresh_eq_formula",
              "covlap_hermitian", "supercurrent_code_eq_formula"}
 GaugeFacts == {"covgrad_covariant", "covlap_covariant", "supercurrent_invariant", "modulus_invariant"}
@@ -137,6 +146,7 @@ RequiredExact == {<<"div", "code", "build">>, <<"grad", "code", "build">>, <<"la
                   <<"neumann", "ref", "formula">>, <<"covgrad", "ref", "formula">>, <<"covlap", "ref", "formula">>,
                   <<"js", "code", "-">>, <<"js", "ref", "-">>, <<"gauge", "-", "-">>,
                   <<"gop", "covgrad", "refresh">>, <<"gop", "covlap", "refresh">>, <<"gjs", "-", "-">>}
+                    \cup {<<o, "code", p>> : o \in ScalarOps, p \in AsmPaths}
 RequiredFloat == {<<"facts", "scalar", "-">>, <<"facts", "cov", "-">>, <<"facts", "gauge", "-">>}
 Complete == IF Exact THEN RequiredExact \subseteq seen /\ (T.geo => <<"geom", "-", "-">> \in seen)
             ELSE RequiredFloat \subseteq seen
@@ -159,6 +169,14 @@ TrKernelIsConstants == (AtEnd /\ Exact /\ Have({"lap"})) =>
                           \A M \in {TM} : /\ AnnihilatesConstantsOn(M, cm["lap"])
                                           /\ (T.heavy => KernelOnVectorsOn(M, cm["lap"]))
                                           /\ ((T.heavy /\ M.n <= 6) => KernelIsConstantsByMinorsOn(M, cm["lap"]))
+\* what build_operators() assembled, for every sparse_solver option, obeys the identities as well
+TrAssembledObeyIdentities ==
+  (AtEnd /\ Exact) => \A M \in {TM} : \A p \in AsmPaths :
+     /\ Have({"lap@" \o p, "div@" \o p, "grad@" \o p}) => LapIsDivGradOn(M, cm["lap@" \o p], cm["div@" \o p], cm["grad@" \o p])
+     /\ Have({"lap@" \o p}) => /\ WeightedSymmetricOn(M, cm["lap@" \o p]) /\ AnnihilatesConstantsOn(M, cm["lap@" \o p])
+     /\ Have({"div@" \o p}) => WeightedDivSumsToZeroOn(M, cm["div@" \o p])
+     /\ Have({"neumann@" \o p}) => BoundaryFluxIntegratesOn(M, cm["neumann@" \o p])
+     /\ Have({"grad@" \o p}) => GradExactOnLinearOn(M, cm["grad@" \o p])
 TrGradExactOnLinear == (AtEnd /\ Exact /\ Have({"grad"})) => \A M \in {TM} : GradExactOnLinearOn(M, cm["grad"])
 TrCovLapHermitian == (AtEnd /\ Exact) => \A M \in {TM} : \A o \in {"covlap", "covlap_r", "covlap2"} :
                                                 cm[o] # None => WeightedHermitianOn(M, cm[o])
@@ -177,5 +195,6 @@ FailingClauses ==
       \cup (IF TrGradExactOnLinear THEN {} ELSE {"GradExactOnLinear"})
       \cup (IF TrCovLapHermitian THEN {} ELSE {"CovLapHermitian"})
       \cup (IF TrGaugeCovariant THEN {} ELSE {"GaugeCovariant"})
+      \cup (IF TrAssembledObeyIdentities THEN {} ELSE {"AssembledOperatorsObeyIdentities"})
 Report == AtEnd => PrintT(<<"CLAUSES", tid, FailingClauses>>)
 =============================================================================
